@@ -1,6 +1,7 @@
 import PagexmlModel.Drv.Util
 import PagexmlModel.Drv.C06
-import PagexmlModel.Model.C07
+import PagexmlModel.Drv.Doc
+import PagexmlModel.Model.C07Parse
 open Lean
 
 namespace Pagexml.Drv.C07
@@ -29,7 +30,20 @@ def handle (op : String) (args : Json) : Dec Json := do
     | .error e => return jObj [("err", jStr e.name)]
     | .ok x =>
       let page := (pageOf x).getD ⟨"", [], none, []⟩
+      let fname := (fieldOpt args "fname").bind (fun j => j.getStr?.toOption) |>.getD "reparsed.xml"
+      -- the second half: the tree as the parser's XML reader sees it, xmltodict, the C01 parser
+      let dict := X.toDictDoc (docX x)
+      let parsed := Scan.parseScan (fun _ => .error .OutOfFuel) fname dict
+      let sc := asScan d
       return jObj [("ok", jObj [("ns", jStr Gen.pageNamespace), ("tree", jXml x),
+        ("dict", Doc.jPyVal dict),
+        ("parsed", match parsed with
+          | .error .OutOfFuel => jObj [("hull", jBool true)]
+          | r => answer Doc.jScan r),
+        ("rt", jBool (rtDoc d)),
+        ("exp", jBool (match sc with | some s => expScan s | none => false)),
+        ("pure_tree", match sc with | some s => jXml (scanTree s) | none => Json.null),
+        ("content", match sc with | some s => Doc.jScan (contentScan fname s) | none => Json.null),
         -- what the parser reads back from the exported tree, and the same content read from the document
         ("read_regions", Json.arr ((readNodes "TextRegion" page.children).map jNode).toArray),
         ("doc_regions", Json.arr ((docNodes d).map jNode).toArray),
